@@ -26,13 +26,17 @@ Trench3 == <<<<0, 0>>, <<5 * Km, 300 * Km>>, <<0, 600 * Km>>>>
 
 Levels == {"inherit", "section", "segment"}
 SecOpt == {[present |-> FALSE, t |-> "inherit", c |-> "inherit"]} \cup [present : {TRUE}, t : Levels, c : Levels]
-Config == [kind : Kinds, sec : [0..2 -> SecOpt]]
+(* defown: the feature's default segments declare models of their own (so the feature-level models are reached only through a
+   section entry whose segments inherit): a coordinate without an entry then uses the default segments' models, an entry whose
+   kind is "inherit" still inherits the FEATURE's *)
+Config == [kind : Kinds, sec : [0..2 -> SecOpt], defown : BOOLEAN]
 
 (* values: temperatures in K; compositions in sixteenths *)
 FT == 100   ST(k) == 200 + 10 * k   GT(k) == 300 + 10 * k
 FC == 2     SC(k) == 4 + k          GC(k) == 8 + k
-ResT(c, k) == CASE c.sec[k].t = "segment" -> GT(k) [] c.sec[k].t = "section" -> ST(k) [] OTHER -> FT
-ResC(c, k) == CASE c.sec[k].c = "segment" -> GC(k) [] c.sec[k].c = "section" -> SC(k) [] OTHER -> FC
+DT == 150   DC == 3                       \* the default segments' own models
+ResT(c, k) == CASE c.sec[k].t = "segment" -> GT(k) [] c.sec[k].t = "section" -> ST(k) [] ~c.sec[k].present /\ c.defown -> DT [] OTHER -> FT
+ResC(c, k) == CASE c.sec[k].c = "segment" -> GC(k) [] c.sec[k].c = "section" -> SC(k) [] ~c.sec[k].present /\ c.defown -> DC [] OTHER -> FC
 
 TM(v) == <<TUniform(v, "replace")>>
 CM(v16) == <<CUniformF(<<1>>, <<Rat(v16, 16)>>, "replace")>>
@@ -48,16 +52,18 @@ Entry(c, k) ==
   @@ (IF o.c = "section" THEN ("composition models" :> CM(SC(k))) ELSE <<>>)
 (* every model written into the segment of every coordinate *)
 ExplicitEntry(c, k) == ("coordinate" :> k) @@ ("segments" :> <<SegWith(TM(ResT(c, k)), CM(ResC(c, k)))>>)
+DefSeg(c) == IF c.defown THEN SegWith(TM(DT), CM(DC)) ELSE BaseSeg
 (* an entry that just repeats the default segment list *)
 RepeatEntry(k) == ("coordinate" :> k) @@ ("segments" :> <<BaseSeg>>)
+RepeatEntryC(c, k) == ("coordinate" :> k) @@ ("segments" :> <<DefSeg(c)>>)
 
 Present(c) == {k \in 0..2 : c.sec[k].present}
 Doc(c, layout) ==
   LET entries == CASE layout = "asis" -> [i \in 1..Cardinality(Present(c)) |-> Entry(c, SetToSeq(Present(c))[i])]
                    [] layout = "explicit" -> [i \in 1..3 |-> ExplicitEntry(c, i - 1)]
-                   [] layout = "repeat" -> [i \in 1..3 |-> IF c.sec[i - 1].present THEN Entry(c, i - 1) ELSE RepeatEntry(i - 1)]
+                   [] layout = "repeat" -> [i \in 1..3 |-> IF c.sec[i - 1].present THEN Entry(c, i - 1) ELSE RepeatEntryC(c, i - 1)]
       feat == Line(c.kind, "line", Trench3, <<500 * Km, 300 * Km>>, 0, 1000 * Km,
-                   <<BaseSeg>>, TM(FT), CM(FC), <<>>, <<>>)
+                   <<DefSeg(c)>>, TM(FT), CM(FC), <<>>, <<>>)
   IN World(Cartesian, <<feat @@ (IF entries = <<>> THEN <<>> ELSE ("sections" :> entries))>>)
 
 (* probes: y in quarters of a coordinate interval; x = 100 km on the dip side, 120 km deep: inside slab and fault *)
@@ -70,7 +76,7 @@ EndsT(c, q) == <<ResT(c, Lo(q)), ResT(c, Lo(q) + 1)>>
 EndsC(c, q) == <<Rat(ResC(c, Lo(q)), 16), Rat(ResC(c, Lo(q) + 1), 16)>>
 
 Behaviour(c) ==
-  [id |-> <<"sections", c>>, labels |-> <<"sections", c.kind>>,
+  [id |-> <<"sections", c>>, labels |-> <<"sections", c.kind, IF c.defown THEN "default-segments-with-own-models" ELSE "default-segments-inherit">>,
    steps |-> << [op |-> "create", h |-> 1, wb |-> Doc(c, "asis")],
                 [op |-> "create", h |-> 2, wb |-> Doc(c, "explicit")],
                 [op |-> "create", h |-> 3, wb |-> Doc(c, "repeat")],
